@@ -249,6 +249,26 @@ CHECKS["C08"] = dict(
          "score_and_refine, cell parameters within tolerance, sign of det(B), de-duplication up to lattice symmetry, and the "
          "whole completeness half (every grain found exactly once on ideal data) - outcomes of a numerical search.")
 
+CHECKS["C09"] = dict(
+    category="other", design_ref="DESIGN.md section 3 / C09",
+    technique="typestate (must-precede in the same loop iteration) over a statement CFG with a small grain-identity "
+              "resolution, slot-agreement tables, def-use and dominance checks on refinegrains.py (ast)",
+    text="Static, structural necessary conditions on the makemap route only: (R1) every translation-dependent geometry "
+         "use inside a loop over grains (self.compute_gv, compute_tth_eta_from_xyz(**parameters), Simplex(self.gof)) is "
+         "dominated in the same iteration by set_translation of the same grain; (R2) set_translation and the copy-back in "
+         "refinepositions pair translation[0,1,2] with t_x,t_y,t_z, the simplex varies exactly those for exactly that grain, "
+         "self.tolerance is restored; (R3) assignlabels feeds compute_gv / score_and_assign the current grain's translation "
+         "and ubi, one gv buffer, label int(g) that the second loop selects on, buffers become the columns, per-grain arrays "
+         "are taken at that selection; (R4) savegrains writes gx..gz, hr..lr, h..l from the matching rows at g.ind after "
+         "recomputing this grain's g-vectors, h,k,l = floor(hkl_real+0.5); (R5) compute_gv applies omegasign and passes "
+         "wavelength, wedge, chi everywhere and stores the last gv on every path; (R6) refine works on a copy with "
+         "(mat, self.gv, self.tolerance) and returns it; gof installs the trial parameters, refines from the matrix read in, "
+         "weights by npks, guards the division.",
+    note=TRUST + "Thin partial claim. Not decided: convergence of the simplex, recovery of UBI / translation to tolerance, "
+         "peak ownership on real data - numerical outcomes. fit() (global parameters) is exempt from R1 by design of the code. "
+         "Observation outside the property: refinepositions stores the last trial point of the simplex, not its best vertex "
+         "(identical on convergence to within the final simplex size).")
+
 NOT_YET = {}
 
 NOT_APPLICABLE = {
